@@ -5,6 +5,7 @@ default/Disconnected after its last frame.
 Timing theorems are about `checkTimeouts`, the silence timers of `UdpProtocol::poll` in the
 Running state; the cut-off theorem is about `SyncLayer::synchronized_inputs`.
 -/
+import GgrsModel.Model.Inventory
 import GgrsModel.Proofs.Endpoint
 
 namespace Ggrs.Endpoint
